@@ -280,11 +280,10 @@ def run(ctx, eng):
               H + '_inbound_flow_control_change_from_settings' in e.names]
         if cs:
             a = [cm.show0(x) for x in cs[0].args]
+            from .c11 import code_facts
             ok = len(a) == 2 and a[0].endswith('.original_value') and \
-                a[1].endswith('.new_value') and any(
-                    e.kind == 'assume' and e.cond[0] == 'in' and
-                    cm.enum_name(e.cond[1]) == 'INITIAL_WINDOW_SIZE'
-                    for e in p.events)
+                a[1].endswith('.new_value') and \
+                code_facts(p).get('INITIAL_WINDOW_SIZE') is True
     ctx.ob('FLOW.delta', f9.qual, 'delta of the acknowledged change', ok,
            '(original_value, new_value) of INITIAL_WINDOW_SIZE', node=f9.node)
     f10 = m.func(H + '_inbound_flow_control_change_from_settings')
